@@ -60,6 +60,12 @@ func c01Dialer(run *evid.Run) (evals int) {
 			dctx, cancel := context.WithTimeout(ctx, 20*time.Second)
 			conn, err := d.Dial(dctx, id)
 			cancel()
+			for r := 0; r < 3 && err != nil && !e4.AllActive(nodes); r++ {
+				e4.WaitAllActive(nodes, 30*time.Second) // membership flapped under load: decide afresh
+				dctx, cancel = context.WithTimeout(ctx, 20*time.Second)
+				conn, err = d.Dial(dctx, id)
+				cancel()
+			}
 			desc := fmt.Sprintf("client.Dialer dialling endpoint %q at node %d", id, e)
 			if err != nil {
 				run.Violation("C01", "not-served-although-upstream-exists", desc+": "+err.Error(), map[string]any{"engine": "E4-C01-dialer", "endpoint": id, "entry": e})
@@ -80,6 +86,10 @@ func c01Dialer(run *evid.Run) (evals int) {
 			// the same id through the HTTP route
 			evals++
 			res := e4.DoHTTP(nd.ProxyAddr(), e4.Addressing{Mode: "header", Endpoint: id})
+			for r := 0; r < 3 && res.Status != 200 && !e4.AllActive(nodes); r++ {
+				e4.WaitAllActive(nodes, 30*time.Second)
+				res = e4.DoHTTP(nd.ProxyAddr(), e4.Addressing{Mode: "header", Endpoint: id})
+			}
 			if res.Err != "" || res.Status != 200 || res.Upstream != "l-"+id {
 				run.Violation("C01", "delivered-to-wrong-endpoint", fmt.Sprintf("x-piko-endpoint: %q at node %d -> %s", id, e, res), map[string]any{"engine": "E4-C01-dialer", "endpoint": id, "entry": e})
 			}
